@@ -30,7 +30,7 @@ func init() {
 
 func runC14(x *Ctx) {
 	x.C.Rule("C14.R1", "tokenize partitions the input: no tail is dropped", 3)
-	x.C.Rule("C14.R2", "each token yields exactly one segment printing as that token, or an error; slice tokens have exactly two parts; quoted lookups are fields", 5)
+	x.C.Rule("C14.R2", "each token yields exactly one segment printing as that token, or an error; slice tokens have exactly two parts; quoted lookups are fields; the whole token is examined", 6)
 	x.C.Rule("C14.R3", "policy tuple positions and arities agree between decoder and encoder; data values are kept verbatim", 7)
 
 	if f := x.fn("C14.R1", selPkg+"tokenize"); f != nil {
@@ -40,6 +40,7 @@ func runC14(x *Ctx) {
 		parseAppendRule(x, f)
 	}
 	tupleAgreement(x)
+	runTotalLoops(x, "C14")
 	packageCodecs(x, "C14.R3", 2, "pkg/policy", "pkg/policy/selector", "pkg/policy/literal", "pkg/args", "pkg/meta")
 }
 
@@ -54,18 +55,44 @@ func tokenizeRule(x *Ctx, f *ssa.Function) {
 		return
 	}
 	l := fi.Loops[0]
-	// the token list: the loop phi of type []string
+	// the token list: the loop phi of type []string, or - when a function literal captures the list - the
+	// variable of that type which the iterations store into
 	var toks *ssa.Phi
+	var toksCell *ssa.Alloc
 	for _, phi := range l.HeaderPhis() {
 		if phi.Type().String() == "[]string" {
 			toks = phi
 		}
 	}
 	if toks == nil {
+		for _, b := range f.Blocks {
+			for _, in := range b.Instrs {
+				if a, ok := in.(*ssa.Alloc); ok && a.Type().String() == "*[]string" {
+					for _, p := range ps {
+						if p.End == paths.EndLatch && p.LastStore(a) != nil {
+							toksCell = a
+						}
+					}
+				}
+			}
+		}
+	}
+	if toks == nil && toksCell == nil {
 		x.C.Unresolved("C14.R1", "tokens:tokenize", x.pos(f), "no loop-carried []string found")
 		return
 	}
-	tk := paths.DetachedTerm(f, toks).String()
+	var tk string
+	if toks != nil {
+		tk = paths.DetachedTerm(f, toks).String()
+	} else {
+		tk = "*" + paths.DetachedTerm(f, toksCell).String()
+	}
+	latchToks := func(p *paths.Path) *paths.Term {
+		if toks != nil {
+			return p.LatchValue(toks)
+		}
+		return p.LastStore(toksCell)
+	}
 	// shape of every append: append(toks, [slice(arg0, O, C)])
 	var ofs, col string
 	badShape := ""
@@ -91,13 +118,13 @@ func tokenizeRule(x *Ctx, f *ssa.Function) {
 		var nt *paths.Term
 		switch p.End {
 		case paths.EndLatch:
-			nt = p.LatchValue(toks)
+			nt = latchToks(p)
 		case paths.EndReturn:
 			nt = p.Results()[0]
 		default:
 			continue
 		}
-		if nt.String() == tk {
+		if nt == nil || nt.String() == tk {
 			continue
 		}
 		o, c, ok := isAppend(nt)
@@ -156,7 +183,9 @@ func tokenizeRule(x *Ctx, f *ssa.Function) {
 			continue
 		}
 		if p.HasFact(pending, true) {
-			if _, _, ok := isAppend(p.LatchValue(toks)); !ok {
+			if lt := latchToks(p); lt == nil {
+				bad += "an iteration sees a pending token (ofs < col) at a separator but does not emit it:\n" + p.String() + "\n"
+			} else if _, _, ok := isAppend(lt); !ok {
 				bad += "an iteration sees a pending token (ofs < col) at a separator but does not emit it:\n" + p.String() + "\n"
 			}
 		}
@@ -339,6 +368,36 @@ func parseAppendRule(x *Ctx, f *ssa.Function) {
 		}
 	}
 	x.C.Obl("C14.R2", "returns-all:Parse", x.pos(f), "after the last token Parse returns the accumulated selector", okRet, "")
+	// the whole token is looked at: the text that is classified is the token minus a suffix of optional markers
+	// (HasSuffix / TrimRight / TrimSuffix with "?"); a function that cuts the token somewhere else (Cut, Split,
+	// Index, Fields, Trim, Replace ...) lets text after the cut go unexamined
+	{
+		allowed := map[string]bool{"strings.HasSuffix": true, "strings.HasPrefix": true, "strings.TrimRight": true, "strings.TrimSuffix": true,
+			"strings.Count": true, "strings.Contains": true, "strings.EqualFold": true}
+		badT, nT := "", 0
+		for _, p := range ps {
+			p.InstrsIn(func(in ssa.Instruction, c *paths.Ctx) {
+				call, ok := in.(*ssa.Call)
+				if !ok {
+					return
+				}
+				ct := c.Term(call)
+				if ct == nil || ct.Op != "call" || len(ct.Args) == 0 || ct.Args[0] == nil || ct.Args[0].String() != tok {
+					return
+				}
+				if !strings.HasPrefix(ct.Name, "strings.") {
+					return
+				}
+				nT++
+				if !allowed[ct.Name] {
+					badT += fmt.Sprintf("%s: %s applied to the token: text after the cut is not examined\n", x.P.Pos(call.Pos()), ct.Name)
+				} else if (ct.Name == "strings.TrimRight" || ct.Name == "strings.TrimSuffix") && !(len(ct.Args) == 2 && ct.Args[1].String() == `const("?")`) {
+					badT += fmt.Sprintf("%s: %s removes %s from the token, not the optional marker\n", x.P.Pos(call.Pos()), ct.Name, ct.Args[1])
+				}
+			})
+		}
+		x.C.Obl("C14.R2", "whole-token:Parse", x.pos(f), "the text classified is the token minus its trailing optional markers", badT == "", dedupLines(badT))
+	}
 }
 
 // tupleAgreement compares decoder and encoder positions per statement struct.
